@@ -23,6 +23,11 @@ chk("C17", "shadowsym", "model_checking",
     "Trusted: reference grammar's notion of dangling/unbalanced text; finite alphabet; z3. Attribute-combination and YAML-structure validation are covered by separate kernels listed in the evidence (when present).",
     "dynamic symbolic execution of Python byte-code with z3 (shadowsym) over symbolic token streams", "DESIGN.md 3/C17")
 
+chk("C11", "shadowsym", "model_checking",
+    "For every enumerated enum shape (<= 3/4 members; implicit, literal, negated literal, expressions of depth <= 2 over + - * / parentheses, unary sign, literals and earlier members; plain / enum class / enum struct; library, namespace and class scope) the real parse -> EnumNode -> Wrapc/Wrapf.wrap_enum pipeline is executed with every integer literal a z3 integer; the C++ meaning of the declaration, the meaning of the emitted C enum and the meaning of the emitted Fortran parameters are built as z3 integer terms (truncating division) and z3 decides that no literal values in [-2^20, 2^20] make any of them differ. Branches of the real code on literal values (e.g. truthiness of a value) fork paths.",
+    "Trusted: gen/refdecl.py expression reader for the C++ meaning; the harness's reader of emitted C/Fortran lines; z3. Outside: int overflow, non-decimal literals, cross-enum references, the Python wrapper's enum constants.",
+    "symbolic execution of the real Python with z3 integer literals (shadowsym); equality of three z3 terms per enumerator", "DESIGN.md 3/C11")
+
 NA = {
  "C01": "generated Fortran run-time behaviour: no Fortran front end yields anything a solver can execute; C-side kernels covered under C02/C06/C10",
  "C04": "finite structural comparison of two emitted texts with a Fortran processor's interoperability rules as oracle; nothing symbolic to decide",
